@@ -603,9 +603,14 @@ def history_case(fam, before, steps, final, kind, ops):
     info = info_for(fam)
     hist, cur = observe_history(info, before, steps)
     coq = f"CHistory @S@ {info.node(before)} {lst(a.term() for a in hist)} {info.node(final)}"
-    return Case(coq=coq, desc={"case": "history", "family": fam, "doc": before.to_json(), "ops": ops,
-                               "steps": [a.desc() for a in hist], "final": final.to_json(), "kind": kind},
-                schema=info.schema_term(), kind=kind, nontrivial=len(steps) > 0)
+    desc = {"case": "history", "family": fam, "doc": before.to_json(), "ops": ops,
+            "steps": [a.desc() for a in hist], "final": final.to_json(), "kind": kind}
+    # an operation of the history died with an exception outside TransformError / ReplaceError / ValueError (gen_history
+    # records it as "crash: ..."): an internal error of the transform API, reported whatever the recorded steps say
+    crashed = [o for o in ops if isinstance(o, (list, tuple)) and len(o) > 2 and str(o[2]).startswith("crash")]
+    if crashed:
+        desc["impl_failure"] = f"a transform operation of the history raised an internal error ({crashed[0][2]})"[:240]
+    return Case(coq=coq, desc=desc, schema=info.schema_term(), kind=kind, nontrivial=len(steps) > 0)
 
 
 def gen_history(rng, g, doc, docs, nops):
